@@ -9,10 +9,10 @@
    preservation, and (round 3) the large-mode chain invariant: implies complete lookups, preserved by
    the three cases of insertNewKeyValue and by value updates, re-established by grow/cleanup.
    NOT proved: mixedTable.grow's array migration and therefore mixedTable.insert as a whole, the
-   fold over whole histories (table_is_map), traversal_exact, float/float key_normalisation —
+   fold over whole histories (table_is_map), traversal_exact —
    see notes/C03.md. *)
 From Coq Require Import ZArith NArith List Bool.
-From GV Require Import Table.ModelValue Table.Model Table.Spec Table.ValueProofs Table.Proofs Table.Inv Table.Refine Table.RefineIns Table.RefineTable Table.Chains Table.ChainsIns Table.ChainsInv Table.TableInv.
+From GV Require Import Table.ModelValue Table.Model Table.Spec Table.ValueProofs Table.Proofs Table.Inv Table.Refine Table.RefineIns Table.RefineTable Table.Chains Table.ChainsIns Table.ChainsInv Table.TableInv Table.KeyCongruence Table.KeyTable.
 Import ListNotations.
 
 (* --- key identity --- *)
@@ -190,6 +190,30 @@ Theorem C03_position_stable : forall hash sl sl' mask k, map shape sl = map shap
   findSlot hash sl mask k = findSlot hash sl' mask k.
 Proof. exact position_stable. Qed.
 Print Assumptions C03_position_stable.
+
+(* --- round 6: key normalisation is a congruence for raw equality (value equality = table-key identity) --- *)
+(* Lua equality of two values = structural equality of their normalised keys, ALL cases (closes C03_key_normalisation_partial:
+   the float/float case uses the injectivity of the binary64 decoding on integral values, up to the sign of zero) *)
+Theorem C03_key_normalisation : forall v w, wf v = true -> wf w = true -> raw_eq (norm v) (norm w) = lua_eq v w.
+Proof. exact key_normalisation. Qed.
+Print Assumptions C03_key_normalisation.
+
+(* two values denote the same table key (their normalised keys are Equals) iff they are raw-equal *)
+Theorem C03_same_key_iff_raw_equal : forall a b, wf a = true -> wf b = true -> equals (norm a) (norm b) = lua_eq a b.
+Proof. exact same_key_iff_raw_equal. Qed.
+Print Assumptions C03_same_key_iff_raw_equal.
+
+(* RawEqual (rawequal, and == when no __eq is involved) computes the manual's equality, hence agrees with key identity *)
+Theorem C03_rawequal_is_lua_equality : forall a b, wf a = true -> wf b = true ->
+  raw_equal_go a b = lua_eq a b /\ raw_equal_go a b = equals (norm a) (norm b).
+Proof. intros. split; [apply raw_equal_go_agrees|apply rawequal_iff_same_key]; auto. Qed.
+Print Assumptions C03_rawequal_is_lua_equality.
+
+(* raw-equal keys read the same entry of every table that satisfies the invariant *)
+Theorem C03_get_respects_raw_equality : forall hash t a b, Inv hash t -> wf a = true -> wf b = true ->
+  gkey (norm a) -> gkey (norm b) -> lua_eq a b = true -> mget hash t a = mget hash t b.
+Proof. exact get_respects_raw_equality. Qed.
+Print Assumptions C03_get_respects_raw_equality.
 
 (* the hypotheses are satisfiable *)
 Theorem C03_inv_nonvacuous : forall hash, Inv hash empty_table /\ HInv hash (mkH [empty_slot] (Some 0) 0).
